@@ -86,6 +86,17 @@ class Units:
                     return U(e.args[0])
                 if f.id in ("ExplainableHourlyQuantities", "SourceHourlyValues") and e.args:
                     return U(e.args[0])
+            if isinstance(f, ast.Attribute) and isinstance(f.value, ast.Name) and f.value.id == "self" and cls is not None:
+                # a method of the same class: the unit of what it returns, when every return agrees (a public helper
+                # `compute_…(kind)` whose last step is `.to(u.dimensionless)`)
+                owner, h = self.pm.find_method(cls.name, f.attr)
+                if h is not None and h is not fn and depth < 8:
+                    hc = self.pm.classes[owner].node
+                    us = [self.unit_of(r.value, h, hc, depth + 1) for r in ast.walk(h)
+                          if isinstance(r, ast.Return) and r.value is not None]
+                    if us and all(u is not None for u in us) and len({u[1] for u in us}) == 1:
+                        return us[0]
+                return None
             if norm(f) in ("pd.DataFrame", "pint_pandas.PintArray"):
                 for n in ast.walk(e):
                     if isinstance(n, ast.keyword) and n.arg == "dtype":
@@ -249,6 +260,33 @@ def r_mag(E):
         views[mod], used = inline_private_exprs(tree, pm.helper_finder)
         accessors |= used
     accessor_names = {h for _, h in accessors}
+    # a local that merely names the receiver's unit (`own_unit = self.unit`) reads as the unit itself
+    from ..astutil import aliases as _aliases, substitute_stmt as _sub_stmt
+    for mod in views:
+        touched = False
+        for f_ in [x for x in ast.walk(views[mod]) if isinstance(x, ast.FunctionDef)]:
+            al = {k: v for k, v in _aliases(f_).items() if norm(v).endswith((".unit", ".units")) and norm(v).startswith("self.")}
+            if not al:
+                continue
+
+            def strip(stmts):
+                out = []
+                for st in stmts:
+                    if isinstance(st, ast.Assign) and len(st.targets) == 1 and isinstance(st.targets[0], ast.Name) \
+                            and st.targets[0].id in al:
+                        continue
+                    for field in ("body", "orelse", "finalbody"):
+                        sub = getattr(st, field, None)
+                        if isinstance(sub, list) and sub and isinstance(sub[0], ast.stmt):
+                            setattr(st, field, strip(sub))
+                    out.append(st)
+                return out
+            f_.body = [_sub_stmt(b, al) for b in strip(f_.body)]
+            touched = True
+        if touched:
+            for n_ in ast.walk(views[mod]):
+                for ch in ast.iter_child_nodes(n_):
+                    ch._parent = n_
     for mod, (rel, tree0, src) in sorted(pm.modules.items()):
         tree = views[mod]
         for n in ast.walk(tree):
